@@ -101,6 +101,8 @@ def one_case(sh, fa, case, parsed):
     if res is None:
         return None
     data, tree, expected, schema_arg = res
+    if tree[2] is None:
+        tree = None
     stream = ReadOnlyStream(data + SENTINEL)
     st, got = guard(read_one, fa, stream, schema_arg)
     info = {"schema": js, "datum": datum, "parsed": parsed}
@@ -110,6 +112,13 @@ def one_case(sh, fa, case, parsed):
         return None
     if not RC.same(got, expected):
         sh.violation("roundtrip-differs", "read back %s, expected %s" % (printable(got, 300), printable(expected, 300)), info)
+        return None
+    # the normalisation is judged under the branches the bytes select (A1); those branches must
+    # at least be ones the datum conforms to, otherwise "equal after normalisation" is vacuous
+    from .c02 import branch_conformance
+    bad = branch_conformance(sh, node, datum, tree) if tree is not None else None
+    if bad:
+        sh.violation("written-under-nonconforming-branch", bad, info)
         return None
     if stream.pos != len(data):
         sh.violation("consumed-wrong-length", "reader consumed %d bytes, writer produced %d" % (stream.pos, len(data)), info)
